@@ -250,10 +250,9 @@ class CdsShortTimestamp(CcsdsTimeProvider):
     def ms_of_today(seconds_since_epoch: Optional[float] = None):
         if seconds_since_epoch is None:
             seconds_since_epoch = time.time()
-        fraction_ms = seconds_since_epoch - math.floor(seconds_since_epoch)
-        return int(
-            math.floor((seconds_since_epoch % SECONDS_PER_DAY) * 1000 + fraction_ms)
-        )
+        # Whole milliseconds since the epoch, reduced to the current day with integer
+        # arithmetic so that the result is always a valid millisecond of a day.
+        return int(math.floor(seconds_since_epoch * 1000)) % MS_PER_DAY
 
     def as_unix_seconds(self) -> float:
         return self._unix_seconds
